@@ -4,8 +4,17 @@
    append latches the error, so nothing is appended behind a torn record).  The durability of what
    WAS acknowledged, after a kill at any point or a clean close, is then the process-crash theorem;
    the cut lemma covers a partially written final record.  That real runs under injected faults
-   behave like this is established by the fault-injection tie (checks/c12.py), not by proof. *)
-From LCDB Require Import Base LogFormat LogFormatClosed FsModel FsProofs.
+   behave like this is established by the fault-injection tie (checks/c12.py), not by proof.
+   The second half of the file is about the status flow of ldb_write itself (WriteLatch.v, an
+   executable model of one session of the write path under EVERY choice of append / fsync outcome):
+   a failing call is reported and latches the error, an acknowledgement means the call's I/O was
+   clean, the acknowledgements of a session are OK... up to the first failing call and errors from it
+   on, the memtable holds exactly the acknowledged batches, and log recovery returns exactly those
+   plus at most the one reported-failed record; without the latch (the code before fix cf9b327) an
+   acknowledged write behind a torn record is lost (refutation witness).  The model's
+   acknowledgement vector is compared with the real library's under injected log faults
+   (kind `latch-vs-model`). *)
+From LCDB Require Import Base LogFormat LogFormatClosed FsModel FsProofs WriteLatch WriteLatchProofs.
 Local Open Scope N_scope.
 
 Theorem C12_partial_append_is_a_clean_cut : forall rs n,
@@ -23,3 +32,45 @@ Theorem C12_acknowledged_survive_kill_or_close : forall tr, wf_protocol tr = tru
      exists b, in_flight tr p b /\ old ++ applied_batches s = acked_before tr p ++ [b]).
 Proof. exact FsProofs.C03_process_crash. Qed.
 Print Assumptions C12_acknowledged_survive_kill_or_close.
+
+(* ---- the error latch of the write path (WriteLatch.v) ---- *)
+Theorem C12_failing_write_is_reported_and_latched : forall s o, wl_bg s = false -> wl_op_faulty o = true ->
+  snd (wl_step s o) = false /\ wl_bg (fst (wl_step s o)) = true.
+Proof. exact step_fault_latches. Qed.
+Print Assumptions C12_failing_write_is_reported_and_latched.
+Theorem C12_acknowledged_means_clean_io : forall s o, snd (wl_step s o) = true ->
+  wl_bg s = false /\ wl_op_faulty o = false.
+Proof. exact step_ack_clean. Qed.
+Print Assumptions C12_acknowledged_means_clean_io.
+Theorem C12_latched_session_refuses_all : forall os s, wl_bg s = true ->
+  wl_run wl_step s os = (s, repeat false (length os)).
+Proof. exact run_latched. Qed.
+Print Assumptions C12_latched_session_refuses_all.
+Theorem C12_session_acks_shape : forall os s, wl_bg s = false ->
+  exists n, snd (wl_run wl_step s os) = repeat true n ++ repeat false (length os - n) /\
+            (n <= length os)%nat /\
+            forallb (fun o => negb (wl_op_faulty o)) (firstn n os) = true /\
+            ((n < length os)%nat -> exists o, nth_error os n = Some o /\ wl_op_faulty o = true) /\
+            wl_bg (fst (wl_run wl_step s os)) = negb (Nat.eqb n (length os)).
+Proof. exact run_shape. Qed.
+Print Assumptions C12_session_acks_shape.
+Theorem C12_session_recovers_acknowledged : forall os,
+  let r := wl_run wl_step wl_init os in
+  let acked := wl_acked_ids os (snd r) in
+  wl_mem (fst r) = acked /\
+  (wl_recovered (wl_logf (fst r)) = acked \/
+   (wl_bg (fst r) = true /\ exists i, wl_recovered (wl_logf (fst r)) = acked ++ [i])).
+Proof. exact latch_session. Qed.
+Print Assumptions C12_session_recovers_acknowledged.
+Theorem C12_without_latch_acknowledged_lost_refuted :
+  exists os, let r := wl_run wl_step_nolatch wl_init os in
+             exists i, In i (wl_acked_ids os (snd r)) /\ ~ In i (wl_recovered (wl_logf (fst r))).
+Proof. exact nolatch_loses_acknowledged. Qed.
+Print Assumptions C12_without_latch_acknowledged_lost_refuted.
+(* non-vacuity: a session with a clean write, a torn append and a later write *)
+Example C12_latch_example :
+  latch_case [ {| lw_id := 1; lw_sync := true; lw_app := WlAOk; lw_sync_ok := true |};
+               {| lw_id := 2; lw_sync := false; lw_app := WlAPartial; lw_sync_ok := true |};
+               {| lw_id := 3; lw_sync := false; lw_app := WlAOk; lw_sync_ok := true |} ]
+  = ([true; false; false], true, [1], [1]).
+Proof. vm_compute. reflexivity. Qed.
